@@ -1,0 +1,29 @@
+//go:build verif
+
+package padding
+
+// Contracts for GoVC (see /verif/DESIGN.md). Comment-only: compiles to nothing.
+//
+//@ spec padlen(n: int): int = (32 - (n + 1) % 32) % 32
+//
+//@ func PadInPlace
+//@   props C19
+//@   ensures len: len(result) == len(data) + padlen(len(data)) + 1
+//@   ensures aligned: len(result) % 32 == 0 && len(result) >= 32
+//@   ensures prefix: forall i: int :: 0 <= i && i < len(data) ==> result[i] == old(data[i])
+//@   ensures zeros: forall i: int :: len(data) <= i && i < len(result) - 1 ==> result[i] == 0
+//@   ensures trailer: result[len(result) - 1] == padlen(len(data))
+//@   modifies elems(byte)
+//@   loop 1 invariant bounds: oldLen <= i && i <= nlen
+//@   loop 1 invariant kept: forall j: int :: 0 <= j && j < oldLen ==> data[j] == old(data[j])
+//@   loop 1 invariant zeroed: forall j: int :: oldLen <= j && j < i ==> data[j] == 0
+//
+//@ spec isPadded(L: int, p: int): bool = L >= 1 && L % 32 == 0 && 0 <= p && p < 32 && L - 1 - p >= 0 && p == padlen(L - 1 - p)
+//
+//@ lemma padShape [C19] (n: int): n >= 0 ==> isPadded(n + padlen(n) + 1, padlen(n)) && (n + padlen(n) + 1) - 1 - padlen(n) == n
+//
+//@ func UnpadInPlace
+//@   props C19
+//@   ensures roundtrip: isPadded(len(data), data[len(data) - 1]) && (forall i: int :: len(data) - 1 - data[len(data) - 1] <= i && i < len(data) - 1 ==> data[i] == 0) ==> result1 == nil && len(result0) == len(data) - 1 - data[len(data) - 1] && arr(result0) == arr(data) && off(result0) == off(data)
+//@   ensures nooverread: result1 == nil ==> len(result0) <= len(data) && arr(result0) == arr(data) && off(result0) == off(data)
+//@   ensures errnil: result1 != nil ==> len(result0) == 0
